@@ -247,3 +247,60 @@ func vh_nts() {
 	}
 	vObserve("entries", len(rr))
 }
+
+// ---- the token ring as built from what the cluster reports (newTokenRing) ----
+//
+// Token strings come from system.local / system.peers. Asserted for each partitioner: every token of
+// every reported host is in the ring whatever the host's up/down state (placement depends on membership,
+// not on reachability), the ring is sorted the way the partitioner orders tokens and each token keeps its
+// owner; malformed token strings (C05: they are server data) must not panic - neither here nor when the
+// ring is used for a lookup.
+func vh_new_token_ring() {
+	parts := []string{"org.apache.cassandra.dht.Murmur3Partitioner", "org.apache.cassandra.dht.RandomPartitioner", "org.apache.cassandra.dht.ByteOrderedPartitioner"}
+	pi := vBound("partitioner")
+	cands := []string{"-5", "0", "7", "100", "", "abc", "12x"}
+	nc := 4 // well-formed candidates only
+	if vBound("malformed") == 1 {
+		nc = len(cands)
+	}
+	pick := func() string { return cands[vChoose("token", nc)] }
+	a := &HostInfo{hostId: "a", connectAddress: net.IPv4(10, 0, 0, 1), tokens: []string{pick(), pick()}, state: NodeUp}
+	b := &HostInfo{hostId: "b", connectAddress: net.IPv4(10, 0, 0, 2), tokens: []string{pick()}, state: NodeUp}
+	if vBool("a_down") {
+		a.state = NodeDown
+	}
+	if vBool("b_down") {
+		b.state = NodeDown
+	}
+	ring, err := newTokenRing(parts[pi], []*HostInfo{a, b})
+	vAssert(err == nil && ring != nil, "C10/ring/built-for-a-supported-partitioner")
+	if ring == nil {
+		return
+	}
+	vAssert(len(ring.tokens) == 3, "C10/ring/every-reported-token-is-in-the-ring-whatever-the-hosts-state")
+	sorted := true
+	for i := 1; i < len(ring.tokens); i++ {
+		sorted = sorted && !ring.tokens[i].token.Less(ring.tokens[i-1].token)
+	}
+	vAssert(sorted, "C10/ring/sorted-in-the-partitioners-token-order")
+	if vBound("malformed") == 0 {
+		// each token string is found with its owner
+		owners := true
+		for _, h := range []*HostInfo{a, b} {
+			for _, ts := range h.tokens {
+				found := false
+				for _, ht := range ring.tokens {
+					if ht.token.String() == ts && ht.host == h {
+						found = true
+					}
+				}
+				owners = owners && found
+			}
+		}
+		vAssert(owners, "C10/ring/each-token-keeps-its-owner")
+	}
+	// a lookup on this ring does not panic either
+	h, _ := ring.GetHostForToken(ring.partitioner.Hash([]byte("k")))
+	vAssert(h == a || h == b, "C10/ring/lookup-finds-a-member")
+	vObserve("n", len(ring.tokens))
+}
